@@ -100,6 +100,7 @@ Proof.
   { destruct Hcase as [[<- <-]|[<- <-]]; split; eapply root_of_is_root; eassumption. }
   destruct Hcr as [Hcr Hrr].
   destruct (link_wf n p rk c r Hwf Hcn Hrn Hcr Hrr Hne Hrk) as [Hwf' Hnr].
+  unfold SInv. cbn [parent rank count].
   split; [exact Hwf'|]. split; [lia|].
   eapply link_rep; eassumption.
 Qed.
@@ -234,7 +235,7 @@ Proof.
     cbn [run united]. destruct (step u o) as [u' r]. cbn [fst snd] in *.
     destruct (IH (pre ++ pairs_of o) u' HS' Hr) as [Hspec HS''].
     destruct (run u' ops) as [u'' rs]. cbn [fst snd] in *.
-    rewrite app_assoc. auto.
+    rewrite app_assoc. split; [split; assumption|assumption].
 Qed.
 
 Theorem uf_refines : forall n ops, ops_in_range n ops = true -> spec_ok n [] ops (run_from n ops).
@@ -274,3 +275,8 @@ Proof.
   rewrite Hf2 in Hf2'. inversion Hf2'; subst u2' ry'.
   apply (roots_eq_iff_joined _ (parent u1) x y rx ry (proj2 (proj2 HS1))); [apply Hs1; exact Hrx|exact Hry].
 Qed.
+
+(* index-based reading of uf_refines: the k-th output is right for the pairs united before op k *)
+Theorem uf_refines_indexed : forall n ops, ops_in_range n ops = true ->
+  spec_ok_indexed n ops (run_from n ops).
+Proof. intros n ops Hr. apply spec_ok_to_indexed. apply uf_refines. exact Hr. Qed.
